@@ -20,7 +20,7 @@ pub struct Root {
     pub hist: History,
     pub board: BoardState,
     pub table: DrawTable,
-    pub table_entries: Vec<(u64, u8)>,
+    pub table_entries: Vec<(u64, u32)>,
     pub legal: Vec<Mv>,
     pub succ_fields: HashMap<Mv, Fields>,
 }
